@@ -198,6 +198,6 @@ class Report(Part):
             )
         )
         sys.stdout.flush()
-        if self.errors:
-            return 2
-        return 1 if new else 0
+        if new:
+            return 1  # a violation was found and printed, whatever else went wrong in the run
+        return 2 if self.errors else 0
